@@ -319,7 +319,7 @@ fn gen_case(rng: &mut Rng, run: &mut Run, nticks: usize, mode: u64) {
         // bitrates: unit u; targeted links get p*u+d, fair links split the rest by weight
         let u: i64 = if floor_left > 0 {
             match floor_kind { 0 => 100, 1 => 1 + rng.below(99) as i64, 2 => 99, _ => 101 }
-        } else { *rng.pick(&[100i64, 101, 500, 1000, 2500, 8000, 20000]) + rng.below(50) as i64 };
+        } else if rng.chance(1, 12) { *rng.pick(&[100i64, 101, 102]) } else { *rng.pick(&[500i64, 1000, 2500, 8000, 20000]) + rng.below(50) as i64 };
         let conn_now: Vec<bool> = present.iter().map(|(k, _)| scripts[*k].down_left == 0).collect();
         let mut targeted: i64 = 0;
         let mut wsum: i64 = 0;
@@ -457,7 +457,7 @@ pub fn run(seed: u64, tier: &str, out: &Path, extra: &[(String, String)]) -> std
     let mut scale: f64 = 1.0;
     for (k, v) in extra { if k == "scale" { scale = v.parse().unwrap_or(1.0); } }
     fixed_cases(&mut run);
-    let ncases = ((if run.thorough() { 12000.0 } else { 1200.0 }) * scale) as usize;
+    let ncases = ((if run.thorough() { 10000.0 } else { 1000.0 }) * scale) as usize;
     for i in 0..ncases {
         let mut r = rng.fork(i as u64);
         let mode = match r.below(10) { 0..=2 => 0, 3..=5 => 1, 6..=7 => 2, _ => 3 };
